@@ -5,6 +5,8 @@ use crate::core::*;
 use crate::walker::*;
 use std::cell::RefCell;
 use std::io::{BufRead, BufReader, Read, Write};
+#[allow(unused_imports)]
+use std::io::Seek;
 use std::process::{Child, ChildStdin, ChildStdout, Command, Stdio};
 
 #[derive(Clone, Debug, PartialEq)]
@@ -88,24 +90,31 @@ pub struct WalkWorker {
     child: Child,
     stdin: ChildStdin,
     stdout: BufReader<ChildStdout>,
+    /// the worker's stderr goes to a file (a pipe nobody drains would block the worker once it is full:
+    /// the library prints with dbg! on some paths)
+    errlog: std::path::PathBuf,
 }
+static WORKER_SEQ: std::sync::atomic::AtomicU64 = std::sync::atomic::AtomicU64::new(0);
 impl WalkWorker {
     pub fn spawn() -> WalkWorker {
         let exe = std::env::current_exe().expect("exe");
-        let mut child = Command::new(exe).arg("worker").arg("walk").env("RUST_BACKTRACE", "0").stdin(Stdio::piped()).stdout(Stdio::piped()).stderr(Stdio::piped()).spawn().expect("spawn worker");
+        let dir = exe.parent().map(|p| p.join("worker-logs")).unwrap_or_else(std::env::temp_dir);
+        let _ = std::fs::create_dir_all(&dir);
+        let errlog = dir.join(format!("{}-{}.stderr", std::process::id(), WORKER_SEQ.fetch_add(1, std::sync::atomic::Ordering::Relaxed)));
+        let errfile = std::fs::File::create(&errlog).expect("worker stderr file");
+        let mut child = Command::new(exe).arg("worker").arg("walk").env("RUST_BACKTRACE", "0").stdin(Stdio::piped()).stdout(Stdio::piped()).stderr(Stdio::from(errfile)).spawn().expect("spawn worker");
         let stdin = child.stdin.take().unwrap();
         let stdout = BufReader::new(child.stdout.take().unwrap());
-        WalkWorker { child, stdin, stdout }
+        WalkWorker { child, stdin, stdout, errlog }
     }
     fn death(&mut self) -> Verdict {
         use std::os::unix::process::ExitStatusExt;
         let _ = self.child.kill();
         let status = self.child.wait().ok();
         let mut tail = String::new();
-        if let Some(mut e) = self.child.stderr.take() {
-            let mut buf = vec![];
-            let _ = e.read_to_end(&mut buf);
-            let s = String::from_utf8_lossy(&buf);
+        if let Ok(buf) = std::fs::read(&self.errlog) {
+            let from = buf.len().saturating_sub(4000);
+            let s = String::from_utf8_lossy(&buf[from..]);
             let lines: Vec<&str> = s.lines().filter(|l| !l.trim().is_empty()).collect();
             tail = lines.iter().rev().take(3).rev().cloned().collect::<Vec<_>>().join(" / ");
         }
@@ -171,6 +180,7 @@ impl Drop for WalkWorker {
     fn drop(&mut self) {
         let _ = self.child.kill();
         let _ = self.child.wait();
+        let _ = std::fs::remove_file(&self.errlog);
     }
 }
 
